@@ -48,7 +48,7 @@ PROPERTIES
   Act_C10_FailAtomic
   Act_C10_SwapSettle
   Act_C10_ExactAtOne
-  Act_C10_NoOverBurn_ModF6
-  Act_C10_Worth_ModF6
-  Act_C10_Dust_ModF6
+  Act_C10_NoOverBurn
+  Act_C10_Worth
+  Act_C10_Dust
 CHECK_DEADLOCK FALSE
